@@ -20,7 +20,9 @@ HELPERS = "gallia.services.uds.helpers"
 
 def rule_r7(m: Model, r: Report) -> None:
     r.rule("R7", "every member of UDSErrorCodes has exactly one UnexpectedNegativeResponse subclass "
-                 "registered with response_code=<member> (parse_dynamic is a total map)", floor=60)
+                 "registered with response_code=<member> (parse_dynamic is a total map); the code values equal the ISO 14229-1 table", floor=60)
+    from sa.uds_rules import iso_tables
+    iso_tables(m, r, "R7", "UDSErrorCodes")
     base = m.require_class(f"{EXC}.UnexpectedNegativeResponse")
     codes = m.enum_members(m.require_class(f"{CONST}.UDSErrorCodes"))
     if not codes:
